@@ -51,6 +51,9 @@ func decodeOut(b []byte) (string, string) {
 				return id, v
 			}
 		}
+		if s == tpl {
+			return id, "unset" // references left as they are (variable unset, tolerated)
+		}
 	}
 	return "?", ""
 }
@@ -65,14 +68,24 @@ func decodeIn(b []byte) string {
 }
 
 type world struct {
-	root                                string
-	cfgIn, cfgOut, dirIn, dirOut, watIn string
+	root                 string
+	cfgIn, cfgOut, watIn string
+	dirIn, dirOut        [2]string // two config directories with output directories
+}
+
+// dirOf: files named c*, y*, z* live in the second config directory.
+func dirOf(name string) int {
+	if strings.HasPrefix(name, "c") || strings.HasPrefix(name, "y") || strings.HasPrefix(name, "z") {
+		return 1
+	}
+	return 0
 }
 
 func newWorld(root string) (*world, error) {
 	w := &world{root: root, cfgIn: filepath.Join(root, "in", "prometheus.yaml"), cfgOut: filepath.Join(root, "out", "prometheus.yaml"),
-		dirIn: filepath.Join(root, "in", "conf.d"), dirOut: filepath.Join(root, "out", "conf.d"), watIn: filepath.Join(root, "in", "rules")}
-	for _, d := range []string{w.dirIn, w.dirOut, w.watIn} {
+		dirIn:  [2]string{filepath.Join(root, "in", "conf.d"), filepath.Join(root, "in", "conf2.d")},
+		dirOut: [2]string{filepath.Join(root, "out", "conf.d"), filepath.Join(root, "out", "conf2.d")}, watIn: filepath.Join(root, "in", "rules")}
+	for _, d := range []string{w.dirIn[0], w.dirOut[0], w.dirIn[1], w.dirOut[1], w.watIn} {
 		if err := os.MkdirAll(d, 0o755); err != nil {
 			return nil, err
 		}
@@ -106,7 +119,7 @@ func (w *world) ins() map[string]any {
 	if b, err := os.ReadFile(w.cfgIn); err == nil {
 		cfg = decodeIn(b)
 	}
-	return map[string]any{"cfg": cfg, "dir": listDir(w.dirIn, in), "wat": listDir(w.watIn, in)}
+	return map[string]any{"cfg": cfg, "dir": append(listDir(w.dirIn[0], in), listDir(w.dirIn[1], in)...), "wat": listDir(w.watIn, in)}
 }
 
 func (w *world) outs() map[string]any {
@@ -115,7 +128,7 @@ func (w *world) outs() map[string]any {
 	if b, err := os.ReadFile(w.cfgOut); err == nil {
 		cfg = out(b)
 	}
-	return map[string]any{"cfg": cfg, "dir": listDir(w.dirOut, out)}
+	return map[string]any{"cfg": cfg, "dir": append(listDir(w.dirOut[0], out), listDir(w.dirOut[1], out)...)}
 }
 
 func noOuts() map[string]any {
@@ -153,11 +166,11 @@ func (ep *endpoint) ServeHTTP(rw http.ResponseWriter, _ *http.Request) {
 
 func randHistory(r *rand.Rand) vt.Case {
 	ids := []string{"p1", "p2", "p3", "e1", "e2"}
-	dn := []string{"a", "b", "c", "d"}[:2+r.Intn(3)]
+	dn := []string{"a", "b", "c", "d", "z"}[:2+r.Intn(4)] // c and z live in the second config directory
 	wn := []string{"w1", "w2"}[:r.Intn(3)]
 	cfg, env := ids[r.Intn(len(ids))], envValues[r.Intn(len(envValues))]
 	dir, wat := map[string]string{}, map[string]string{}
-	c := vt.Case{"cfg0": cfg, "env0": env}
+	c := vt.Case{"cfg0": cfg, "env0": env, "tol": r.Intn(3) == 0}
 	var ops []any
 	n := 6 + r.Intn(30)
 	for i := 0; i < n; i++ {
@@ -187,8 +200,12 @@ func randHistory(r *rand.Rand) vt.Case {
 				op("wadd", f, wat[f])
 			}
 		default:
-			env = envValues[r.Intn(len(envValues))]
-			op("setenv", "", env)
+			if r.Intn(3) == 0 {
+				op("unsetenv", "", "") // with tolerance off, applies fail part-way until it is set again
+			} else {
+				env = envValues[r.Intn(len(envValues))]
+				op("setenv", "", env)
+			}
 		}
 	}
 	c["ops"] = ops
@@ -226,10 +243,12 @@ func TestC47(t *testing.T) {
 		write(w.cfgIn, vt.Str(c["cfg0"]))
 		env := vt.Str(c["env0"])
 		os.Setenv(envVar, env)
+		tol := vt.Bool(c["tol"])
 		rl := reloader.New(nil, nil, &reloader.Options{
 			ReloadURL: u, CfgFile: w.cfgIn, CfgOutputFile: w.cfgOut,
-			CfgDirs:     []reloader.CfgDirOption{{Dir: w.dirIn, OutputDir: w.dirOut}},
+			CfgDirs:     []reloader.CfgDirOption{{Dir: w.dirIn[0], OutputDir: w.dirOut[0]}, {Dir: w.dirIn[1], OutputDir: w.dirOut[1]}},
 			WatchedDirs: []string{w.watIn}, WatchInterval: time.Hour, RetryInterval: time.Millisecond,
+			TolerateEnvVarExpansionErrors: tol,
 		})
 		tr.Emit(vt.Event{"ev": "case", "case": caseID, "in": c, "kf": ""})
 		for _, x := range vt.List(c["ops"]) {
@@ -237,13 +256,13 @@ func TestC47(t *testing.T) {
 			op, f, cc := vt.Str(o["op"]), vt.Str(o["f"]), vt.Str(o["c"])
 			switch op {
 			case "edit", "add":
-				p := filepath.Join(w.dirIn, f)
+				p := filepath.Join(w.dirIn[dirOf(f)], f)
 				if f == "cfg" {
 					p = w.cfgIn
 				}
 				write(p, cc)
 			case "remove":
-				os.Remove(filepath.Join(w.dirIn, f))
+				os.Remove(filepath.Join(w.dirIn[dirOf(f)], f))
 			case "wadd", "wedit":
 				write(filepath.Join(w.watIn, f), cc)
 			case "wremove":
@@ -251,6 +270,9 @@ func TestC47(t *testing.T) {
 			case "setenv":
 				env = cc
 				os.Setenv(envVar, env)
+			case "unsetenv":
+				env = "unset"
+				os.Unsetenv(envVar)
 			case "apply":
 				ctx, cancel := context.WithCancel(context.Background())
 				ep.mu.Lock()
@@ -269,7 +291,7 @@ func TestC47(t *testing.T) {
 				}()
 				cancel()
 				ep.mu.Lock()
-				ev := vt.Event{"ev": "Apply", "case": caseID, "outcome": cc, "ins": w.ins(), "env": env,
+				ev := vt.Event{"ev": "Apply", "case": caseID, "outcome": cc, "ins": w.ins(), "env": env, "tol": tol,
 					"calls": ep.calls, "oks": ep.oks, "err": errS, "outs": w.outs(), "atok": ep.atok}
 				ep.mu.Unlock()
 				tr.Emit(ev)
@@ -289,7 +311,7 @@ func TestC47(t *testing.T) {
 		run(c)
 	}
 	rnd := vt.Rand()
-	for i, n := 0, vt.Pick(600, 2500); i < n; i++ {
+	for i, n := 0, vt.Pick(400, 2500); i < n; i++ {
 		run(randHistory(rnd))
 	}
 	if caseID == 0 {
